@@ -22,32 +22,35 @@ JVariant(r, v, tag) ==
         /\ Clause(i, "C10." \o tag \o ".centres_on_camber_radii_on_law", FollowsLaw(st, glen))
         /\ Clause(i, "C10." \o tag \o ".max_thickness_recovered", AbsF(v.tmax.r - r.rmax_mc) <= 300
                                                                   /\ (v.upper.some => v.tmax.thk_ok /\ AbsF(v.tmax.thk - 2 * v.tmax.r) <= 40))
-    /\ Clause(i, "C10." \o tag \o ".edges_found", v.le.some /\ v.te.some)
+    \* (ConvergeTangentEdge documents "no edge" as a regular answer when no camber position meets its tolerance)
+    /\ Clause(i, "C10." \o tag \o ".edges_found", (v.le.some \/ r.le.kind = "converge") /\ (v.te.some \/ r.te.kind = "converge"))
     /\ (v.le.some /\ v.te.some) =>
         /\ Clause(i, "C10." \o tag \o ".edge_points_finite", v.le.fin /\ v.te.fin)
         /\ (v.le.fin /\ v.te.fin) =>
             /\ Clause(i, "C10." \o tag \o ".edge_points_on_section",
-                   (v.le.geom = "open" \/ v.le.dsec <= TEdgeOnSection) /\ (v.te.geom = "open" \/ v.te.dsec <= TEdgeOnSection))
+                   (v.le.geom = "open" \/ v.le.dsec <= r.edge_tol_mc) /\ (v.te.geom = "open" \/ v.te.dsec <= r.edge_tol_mc))
             /\ Clause(i, "C10." \o tag \o ".edge_points_end_the_camber", PNear2(v.cam_first, v.le.p, 4) /\ PNear2(v.cam_last, v.te.p, 4))
             \* the located edges are the ends of the generating envelope (checked at the ends the section really has)
             /\ Clause(i, "C10." \o tag \o ".edge_points_at_true_ends",
-                   (r.le_chk => PNear2(v.le.p, r.out.le_true, TEdgeTruth)) /\ (r.te_chk => PNear2(v.te.p, r.out.te_true, TEdgeTruth)))
+                   /\ (r.le_chk => PNear2(v.le.p, r.out.le_true, ClassTol(r.le.kind, TEdgeTruthTight, TEdgeTruthMid)))
+                   /\ (r.te_chk => PNear2(v.te.p, r.out.te_true, ClassTol(r.te.kind, TEdgeTruthTight, TEdgeTruthMid))))
             /\ Clause(i, "C10." \o tag \o ".surfaces_present", v.upper.some /\ v.lower.some)
             /\ (v.upper.some /\ v.lower.some) =>
                 /\ Clause(i, "C10." \o tag \o ".surfaces_partition_perimeter", AbsF(v.upper.len + v.lower.len - v.perimeter) <= TPartition
                                                                                /\ v.upper.maxdev <= TPartition /\ v.lower.maxdev <= TPartition)
                 /\ Clause(i, "C10." \o tag \o ".upper_on_requested_side", v.up_side = 1)
                 /\ r.closed => Clause(i, "C10." \o tag \o ".surfaces_meet_at_edges",
-                       /\ (PNear2(v.upper.a, v.le.p, 80) \/ PNear2(v.upper.b, v.le.p, 80)) /\ (PNear2(v.upper.a, v.te.p, 80) \/ PNear2(v.upper.b, v.te.p, 80))
-                       /\ (PNear2(v.lower.a, v.le.p, 80) \/ PNear2(v.lower.b, v.le.p, 80)) /\ (PNear2(v.lower.a, v.te.p, 80) \/ PNear2(v.lower.b, v.te.p, 80)))
+                       /\ (PNear2(v.upper.a, v.le.p, r.edge_tol_mc + 40) \/ PNear2(v.upper.b, v.le.p, r.edge_tol_mc + 40)) /\ (PNear2(v.upper.a, v.te.p, r.edge_tol_mc + 40) \/ PNear2(v.upper.b, v.te.p, r.edge_tol_mc + 40))
+                       /\ (PNear2(v.lower.a, v.le.p, r.edge_tol_mc + 40) \/ PNear2(v.lower.b, v.le.p, r.edge_tol_mc + 40)) /\ (PNear2(v.lower.a, v.te.p, r.edge_tol_mc + 40) \/ PNear2(v.lower.b, v.te.p, r.edge_tol_mc + 40)))
 
 JInvariance(r, base, v, tag) ==
     (base.ok /\ v.ok /\ base.le.some /\ v.le.some /\ base.te.some /\ v.te.some /\ base.le.fin /\ v.le.fin /\ base.te.fin /\ v.te.fin) =>
         Clause(i, "C10." \o tag \o ".same_result_as_unmoved_section",
                /\ AbsF(base.tmax.r - v.tmax.r) <= TInvR
                /\ AbsF(base.camber_len - v.camber_len) <= TInvLen
-               /\ PNear2(base.le.p, v.le.p, TInvEdge) /\ PNear2(base.te.p, v.te.p, TInvEdge)
-               /\ PNear2(base.tmax.c, v.tmax.c, TInvEdge))
+               /\ PNear2(base.le.p, v.le.p, ClassTol(r.le.kind, TInvEdgeTight, TInvEdgeMid))
+               /\ PNear2(base.te.p, v.te.p, ClassTol(r.te.kind, TInvEdgeTight, TInvEdgeMid))
+               /\ PNear2(base.tmax.c, v.tmax.c, TInvTmax))
 
 Tags == <<"as_given", "moved", "reversed", "start_rotated", "start_rotated2">>
 JAnalyze(r) ==
